@@ -1655,6 +1655,64 @@ pub fn spaces(tier: Tier) -> Vec<Space> {
         check_string(acc, case, is_priv, &s, key, json!({"base": base.desc, "kind": kind_name(is_priv), "valid_string": text, "payload_len": len, "filler": fill, "string": s}));
     }));
 
+    // 7a. key material that is not a key, under a VALID checksum (BIP32 test vector 5 classes): xpub key fields that are not
+    //     the compressed encoding of a curve point (x not on the curve, x >= p, tags 00 / 04 / 05 / 06 / 07), xprv key fields
+    //     with a non-zero pad byte or a scalar outside [1, n-1]
+    {
+        let t = tree.clone();
+        let n_be = hex::decode("fffffffffffffffffffffffffffffffebaaedce6af48a03bbfd25e8cd0364141").unwrap();
+        let p_be = hex::decode("fffffffffffffffffffffffffffffffffffffffffffffffffffffffefffffc2f").unwrap();
+        let word = |last: u8| -> Vec<u8> {
+            let mut v = vec![0u8; 32];
+            v[31] = last;
+            v
+        };
+        let mut pub_fields: Vec<(String, Vec<u8>)> = vec![];
+        for tag in [2u8, 3] {
+            for (name, x) in [("x=5 (not on the curve)", word(5)), ("x=7 (not on the curve)", word(7)), ("x=0", word(0)), ("x=p", p_be.clone()), ("x=2^256-1", vec![0xff; 32])] {
+                pub_fields.push((format!("tag {:02x}, {}", tag, name), [vec![tag], x].concat()));
+            }
+        }
+        for tag in [0u8, 1, 4, 5, 6, 7, 0xff] {
+            pub_fields.push((format!("tag {:02x} on the x of a valid key", tag), vec![tag]));
+        }
+        let mut priv_fields: Vec<(String, Vec<u8>)> = vec![];
+        for pad in [1u8, 2, 3, 4, 0x80, 0xff] {
+            priv_fields.push((format!("pad byte {:02x} in front of a valid scalar", pad), vec![pad]));
+        }
+        let mut n_plus_1 = n_be.clone();
+        n_plus_1[31] += 1;
+        for (name, k) in [("scalar 0", word(0)), ("scalar n", n_be.clone()), ("scalar n+1", n_plus_1), ("scalar 2^256-1", vec![0xff; 32])] {
+            priv_fields.push((name.to_string(), [vec![0u8], k].concat()));
+        }
+        let (npub, npriv) = (pub_fields.len() as u64, priv_fields.len() as u64);
+        v.push(Space::new("invalid-key-material", nb * (npub + npriv), move |case, acc| {
+            let c = coords(case.idx, &[nb, npub + npriv]);
+            let base = &t.bases()[c[0] as usize];
+            let is_priv = c[1] >= npub;
+            let (text, key) = if is_priv { (&base.xs, &base.x) } else { (&base.ps, &base.p) };
+            let (desc, field) = if is_priv { &priv_fields[(c[1] - npub) as usize] } else { &pub_fields[c[1] as usize] };
+            let mut payload = b58::check_decode(text).unwrap();
+            // a one-byte field replaces only the first byte of the 33-byte key field
+            payload[45..45 + field.len()].copy_from_slice(field);
+            let s = b58::check_encode(&payload);
+            if is_priv && field.len() == 1 {
+                // a non-zero pad byte under a valid checksum: BIP32 calls the string invalid, but the statement only demands
+                // that a corrupted string is not turned into a DIFFERENT key; a decoder that ignores the pad byte and returns
+                // the same key is observed and counted, not judged
+                if let Ok(Ok(snap)) = lib_from_string(true, &s) {
+                    if diff(&snap, key, None).is_empty() {
+                        acc.evaluations += 1;
+                        acc.bump("nonzero_pad_byte_accepted_as_the_same_key(not judged)", 1);
+                        acc.outcome(b"pad-same");
+                        return;
+                    }
+                }
+            }
+            check_string(acc, case, is_priv, &s, key, json!({"base": base.desc, "kind": kind_name(is_priv), "valid_string": text, "key_field": desc, "string": s}));
+        }));
+    }
+
     // 8. seed CONTENT alphabet: text-looking seeds (hex digits in every case, decimal, base58/base64, words, NULs, UTF-8) × lengths,
     //    and the hex text of every binary seed; the bytes must go into HMAC-SHA512 exactly as given
     let lens = content_lens(tier);
